@@ -12,6 +12,7 @@ import (
 func init() {
 	vr.Register("Harness_C12_selectors", Harness_C12_selectors)
 	vr.Register("Harness_C12_routetype", Harness_C12_routetype)
+	vr.Register("Harness_C12_two_alerts", Harness_C12_two_alerts)
 }
 
 type hSel struct {
@@ -173,4 +174,37 @@ func Harness_C12_routetype() {
 	got := parseRouteType_GTFSRealtime(&x)
 	vr.Assert("C12.route_type.decode", got == hm_KnownRouteType(x))
 	vr.Assert("C12.route_type.absent", parseRouteType_GTFSRealtime(nil) == RouteType_Unknown)
+}
+
+// Two alerts in one feed: what the second alert informs is what it informs when it is alone
+// (nothing learnt from the first alert suppresses or adds scope).
+func Harness_C12_two_alerts() {
+	_, zone := hZone()
+	mk := func(tag string) *gtfsrt.Alert {
+		a := &gtfsrt.Alert{}
+		// route-only selectors and route-only trip descriptors over two symbolic routes
+		for k := 0; k < 2; k++ {
+			r := vr.OneOf(vr.T(tag, ".sel", k, ".route"), "RA", "RB")
+			switch hConcretize(vr.Int(vr.T(tag, ".sel", k, ".shape"), 0, 2), 0, 2) {
+			case 0:
+				a.InformedEntity = append(a.InformedEntity, &gtfsrt.EntitySelector{RouteId: &r})
+			case 1:
+				a.InformedEntity = append(a.InformedEntity, &gtfsrt.EntitySelector{Trip: &gtfsrt.TripDescriptor{RouteId: &r}})
+			default:
+				a.InformedEntity = append(a.InformedEntity, &gtfsrt.EntitySelector{Trip: &gtfsrt.TripDescriptor{RouteId: &r, DirectionId: vr.P(uint32(vr.Int(vr.T(tag, ".sel", k, ".dir"), 0, 1)))}})
+			}
+		}
+		return a
+	}
+	_ = zone
+	ida, idb := "a", "b"
+	A, B := mk("alert.a"), mk("alert.b")
+	both, err1 := ParseRealtime(vr.Marshal(&gtfsrt.FeedMessage{Header: hHeader("header"), Entity: []*gtfsrt.FeedEntity{{Id: &ida, Alert: A}, {Id: &idb, Alert: B}}}), &ParseRealtimeOptions{})
+	alone, err2 := ParseRealtime(vr.Marshal(&gtfsrt.FeedMessage{Header: hHeader("header"), Entity: []*gtfsrt.FeedEntity{{Id: &idb, Alert: B}}}), &ParseRealtimeOptions{})
+	vr.Assert("C12.returns", err1 == nil && err2 == nil && both != nil && alone != nil)
+	if both == nil || alone == nil || len(both.Alerts) != 2 || len(alone.Alerts) != 1 {
+		vr.Assert("C12.two_alerts.count", false)
+		return
+	}
+	vr.Assert("C12.two_alerts.independent", vr.DeepEq(both.Alerts[1].InformedEntities, alone.Alerts[0].InformedEntities))
 }
